@@ -1189,3 +1189,17 @@ def predicate_table(fn, names, expected, cap=4000):
                 problems.append("under %s it returns %s, expected %s" % (full, got, expected(full)))
                 break
     return (not problems), problems, len(rows)
+
+
+
+TRUNCATING = ("::skip", "::take", "::step_by", "::filter", "::skip_while", "::take_while", "::filter_map", "::nth", "::last", "::chunks", "::windows")
+
+
+def truncating_adapters(sym):
+    """names of iterator adapters in an iterator's provenance that can drop elements."""
+    out = []
+    for x in walk(sym):
+        if x[0] == "call" and (x[4].startswith("std::iter::Iterator::") or "::iter::" in x[1] or "Iterator" in x[1]):
+            if any(x[1].endswith(t) or x[4].endswith(t) for t in TRUNCATING):
+                out.append(x[1].rsplit("::", 1)[1])
+    return out
